@@ -634,9 +634,11 @@ def rtAnnoType (N : Naming) (a : AnnoTypeDef) : List ModItem :=
           init := some (a.params.map fun p => rtParam (fmtVar N p.name true)),
           members := a.params.map fun p => rtMember .property (fmtFunc N p.name true) }]
 
-/-- `_generate_alias_definition` (runtime): the validator is named after `alias.name` itself -/
+/-- `_generate_alias_definition` (runtime): the validator is named after `fmt_class(alias.name)`
+(the name its users refer to; before the repair of D20 it was `alias.name` itself), the class alias
+is bound under the raw `alias.name` -/
 def rtAlias (N : Naming) (ns : String) (a : AliasDef) : List ModItem :=
-  .validator (a.name ++ "_validator") .none ::
+  .validator (fmtClass N a.name ++ "_validator") .none ::
     (if isUserTy (unwrapAliases a.ty) then [.aliasName a.name (aliasTargetName N ns a.ty)] else [])
 
 def rtRoutes (N : Naming) (ns : Namespace) : List ModItem :=
@@ -805,7 +807,8 @@ def directCovered (ns : Namespace) : Bool :=
 def chainsOK (api : Api) : Bool :=
   api.namespaces.all fun ns => ns.types.all fun t => chainOK api api.fuel t
 
-/-- alias names the class formatter leaves unchanged -/
+/-- alias names the class formatter leaves unchanged (no longer a hypothesis of any theorem since the
+repair of D20; recorded by the harness) -/
 def aliasNamesStable (N : Naming) (ns : Namespace) : Bool := ns.aliases.all fun a => fmtClass N a.name == a.name
 
 end StoneVerif.DeclStub
